@@ -318,13 +318,15 @@ int main(int argc, char** argv) {
     //               operations (then one random follow-up request), A in {2,4} (8 too in thorough)
     std::vector<uint64_t> smallA = {2, 4}; if (thorough) smallA.push_back(8);
     for (uint64_t A : smallA) for (int am = 0; am < 2; am++) {
-        // AlignedAlloc (posix_memalign) cannot serve alignments below sizeof(void*): those use the harness allocator
+        // allocator of the adaptor's temporary buffers: 0 = its own (AlignedAlloc when alignMemory), 1 = the harness' poisoning
+        // one.  AlignedAlloc (posix_memalign) refuses alignments below sizeof(void*) (finding C16a): for those the harness
+        // allocator is the main one, so that the small scope is covered, and the adaptor's own is run on a third of the cases.
         int alloc0 = (am && A < sizeof(void*)) ? 1 : 0;
         uint64_t M = 3 * A + 2;
-        for (int alloc = alloc0; alloc < 2; alloc++)
+        for (int alloc = 0; alloc < 2; alloc++)
         for (uint64_t s0 = 1; s0 <= M; s0++) for (uint64_t off = 0; off < s0; off++) for (uint64_t len = 0; len <= M; len++)
         for (int w = 0; w < 2; w++) for (int mis = 0; mis <= am; mis++) {
-            if (alloc == 1 && alloc0 == 0 && (len + off + s0) % 3) continue;          // second allocator: a third of the cases
+            if (alloc != alloc0 && (len + off + s0) % 3) continue;          // the other allocator: a third of the cases
             run_aligned(A, am, alloc, s0, [&](Op& op, int idx, uint64_t cur) {
                 if (idx == 0) { op.write = w; op.variant = 0; op.off = off; op.lens.assign(1, len); op.misoff.assign(1, mis ? pick_mis(A) : 0); op.sym = 2; return true; }
                 if (idx == 1 && cur > 0) { random_op(op, idx, cur, A, M, am, 3); return true; }
@@ -342,9 +344,9 @@ int main(int argc, char** argv) {
             }
             segs.push_back({(uint32_t)len});
             for (auto& sg : segs) for (int mis = 0; mis <= (am ? (int)sg.size() : 0); mis++) {
-                // sampling of the vectored scope: quick a third (A = 2) / an eighth (A = 4); thorough all (A = 2), half (A = 4), 1/32 (A = 8)
+                // sampling of the vectored scope: quick a fifth (A = 2) / a twelfth (A = 4); thorough all (A = 2), a third (A = 4), 1/32 (A = 8)
                 uint64_t hsh = (s0 * 131 + off * 31 + len * 7 + sg[0] * 3 + sg.size() + mis + w) ;
-                uint64_t den = thorough ? (A == 8 ? 32 : A == 4 ? 2 : 1) : (A == 2 ? 3 : 8);
+                uint64_t den = thorough ? (A == 8 ? 32 : A == 4 ? 3 : 1) : (A == 2 ? 5 : 12);
                 if (hsh % den) continue;
                 run_aligned(A, am, alloc0, s0, [&](Op& op, int idx, uint64_t cur) {
                     if (idx == 0) { op.write = w; op.variant = 1 + (int)((s0 + off + len + sg[0]) % 4); op.off = off; op.lens = sg;
